@@ -49,3 +49,114 @@ func short(s string, n int) string {
 	}
 	return s
 }
+
+// ipos is the position of an instruction, falling back to its function.
+func (c *Ctx) ipos(i ssa.Instruction) string {
+	if i.Pos().IsValid() {
+		return c.P.Pos(i.Pos())
+	}
+	if b := i.Block(); b != nil {
+		for k := len(b.Instrs) - 1; k >= 0; k-- {
+			if b.Instrs[k].Pos().IsValid() {
+				return c.P.Pos(b.Instrs[k].Pos())
+			}
+		}
+	}
+	return c.P.Pos(i.Parent().Pos())
+}
+
+// globalInit returns the term stored into package variable name by the
+// package initialiser and the number of stores to it in the whole package.
+func (c *Ctx) globalInit(rel, name string) (*ana.Term, int, *ssa.Global) {
+	pk := c.P.Pkg(rel)
+	if pk == nil {
+		return nil, 0, nil
+	}
+	g, ok := pk.Members[name].(*ssa.Global)
+	if !ok {
+		return nil, 0, nil
+	}
+	var init *ana.Term
+	n := 0
+	for _, fn := range c.P.RepoFuncs(rel) {
+		if fn.Pkg != pk {
+			continue
+		}
+		b := ana.NewBuilder(c.P, fn)
+		for _, blk := range fn.Blocks {
+			for _, ins := range blk.Instrs {
+				if s, ok := ins.(*ssa.Store); ok && s.Addr == g {
+					n++
+					if fn.Synthetic == "package initializer" {
+						init = b.Of(s.Val, s)
+					}
+				}
+			}
+		}
+	}
+	return init, n, g
+}
+
+// lenGuardImplies reports whether literal lit over len(S) implies len(S) > k.
+func lenGuardImplies(lit *ana.Term, s *ana.Term, k int64) bool {
+	op, l, r, ok := ana.IsCmp(lit)
+	if !ok || !l.Is("len") || l.Arg(0).String() != s.String() {
+		return false
+	}
+	cv, isInt := r.Int()
+	if !isInt {
+		return false
+	}
+	switch op {
+	case ">=", "==":
+		return cv >= k+1
+	case ">":
+		return cv >= k
+	}
+	return false
+}
+
+// constIndexGuarded reports whether S[k] (IndexAddr/Index with constant k on a
+// slice or string S) is evaluated only on paths that pass a length test implying len(S) > k.
+func constIndexGuarded(b *ana.Builder, ins ssa.Instruction, s *ana.Term, k int64) bool {
+	var es []ana.Edge
+	for _, ce := range b.CondEdges() {
+		if lenGuardImplies(ce.Lit, s, k) {
+			es = append(es, ce.Edge)
+		}
+	}
+	return mustPass(b.Fn, ins.Block(), es)
+}
+
+// reachableRepoFuncs returns fn and every repository function reachable from it through static calls.
+func reachableRepoFuncs(fn *ssa.Function) []*ssa.Function {
+	seen := map[*ssa.Function]bool{fn: true}
+	order := []*ssa.Function{fn}
+	for i := 0; i < len(order); i++ {
+		x := order[i]
+		for _, ci := range ana.Calls(x) {
+			if cal := ana.StaticRepoCallee(ci.Common()); cal != nil && !seen[cal] {
+				seen[cal] = true
+				order = append(order, cal)
+			}
+		}
+		for _, an := range x.AnonFuncs {
+			if !seen[an] {
+				seen[an] = true
+				order = append(order, an)
+			}
+		}
+	}
+	return order
+}
+
+// edgeMustPass reports whether every path from the entry that takes edge e
+// uses one of edges (e itself may be one of them).
+func edgeMustPass(fn *ssa.Function, e ana.Edge, edges []ana.Edge) bool {
+	for _, x := range edges {
+		if x == e {
+			return true
+		}
+	}
+	return mustPass(fn, e.From, edges)
+}
